@@ -573,201 +573,201 @@ Fixpoint lift_value (v : value) : res expr :=
   end.
 
 (* the implementing functions of codegen_combinators.rs, by Rust function name *)
-Definition combinator_table : list (string * (list value -> res value)) := [
+Definition combinator_table : list (string * (list value -> res expr)) := [
   ("code_lit_f", fun args =>
      match args with
-       | [VNum q] => Ok (VCode (ELit (LFloat q)))
+       | [VNum q] => Ok (ELit (LFloat q))
        | _ => Err Stuck
      end);
   ("code_lit_i", fun args =>
      match args with
-       | [VInt z] => Ok (VCode (ELit (LInt z)))
-       | [VTy t] => Ok (VCode (ELit (LTy t)))
+       | [VInt z] => Ok (ELit (LInt z))
+       | [VTy t] => Ok (ELit (LTy t))
        | _ => Err Stuck
      end);
   ("code_lit_s", fun args =>
      match args with
-       | [VStr s] => Ok (VCode (ELit (LString s)))
+       | [VStr s] => Ok (ELit (LString s))
        | _ => Err Stuck
      end);
   ("code_var", fun args =>
      match args with
-       | [VStr s] => Ok (VCode (EVar s))
+       | [VStr s] => Ok (EVar s)
        | _ => Err Stuck
      end);
   ("code_app", fun args =>
      match args with
-       | [VCode f; a] => do es <- codes a; Ok (VCode (EApply f es))
+       | [VCode f; a] => do es <- codes a; Ok (EApply f es)
        | _ => Err Stuck
      end);
   ("code_app1", fun args =>
      match args with
-       | [VCode f; VCode a] => Ok (VCode (EApply f [a]))
+       | [VCode f; VCode a] => Ok (EApply f [a])
        | _ => Err Stuck
      end);
   ("code_app2", fun args =>
      match args with
-       | [VCode f; VCode a1; VCode a2] => Ok (VCode (EApply f [a1; a2]))
+       | [VCode f; VCode a1; VCode a2] => Ok (EApply f [a1; a2])
        | _ => Err Stuck
      end);
   ("code_lam1_finish", fun args =>
      match args with
-       | [VStr n; VCode b] => Ok (VCode (ELambda [(n, ty_unknown, None)] None b))
+       | [VStr n; VCode b] => Ok (ELambda [(n, ty_unknown, None)] None b)
        | _ => Err Stuck
      end);
   ("code_lam1_finish_typed", fun args =>
      match args with
-       | [VStr n; VTy pt; VTy rt; VCode b] => Ok (VCode (ELambda [(n, pt, None)] (Some rt) b))
+       | [VStr n; VTy pt; VTy rt; VCode b] => Ok (ELambda [(n, pt, None)] (Some rt) b)
        | _ => Err Stuck
      end);
   ("code_lam_finish", fun args =>
      match args with
        | [ns; VCode b] =>
-        do ns <- strs ns; Ok (VCode (ELambda (typed_params ns []) None b))
+        do ns <- strs ns; Ok (ELambda (typed_params ns []) None b)
        | _ => Err Stuck
      end);
   ("code_lam_finish_typed", fun args =>
      match args with
        | [ns; ts; VTy rt; VCode b] =>
-        do ns <- strs ns; do ts <- tys ts; Ok (VCode (ELambda (typed_params ns ts) (Some rt) b))
+        do ns <- strs ns; do ts <- tys ts; Ok (ELambda (typed_params ns ts) (Some rt) b)
        | _ => Err Stuck
      end);
   ("code_lam_finish_defaults", fun args =>
      match args with
        | [ns; mask; ds; VCode b] =>
         do ns <- strs ns; do mask <- nums mask; do ds <- codes ds;
-        Ok (VCode (ELambda (default_params ns [] mask ds) None b))
+        Ok (ELambda (default_params ns [] mask ds) None b)
        | _ => Err Stuck
      end);
   ("code_lam_finish_defaults_typed", fun args =>
      match args with
        | [ns; ts; mask; ds; VTy rt; VCode b] =>
         do ns <- strs ns; do ts <- tys ts; do mask <- nums mask; do ds <- codes ds;
-        Ok (VCode (ELambda (default_params ns ts mask ds) (Some rt) b))
+        Ok (ELambda (default_params ns ts mask ds) (Some rt) b)
        | _ => Err Stuck
      end);
   ("code_let", fun args =>
      match args with
-       | [VStr n; VCode v; VCode b] => Ok (VCode (ELet (PSingle n) ty_unknown v (Some b)))
+       | [VStr n; VCode v; VCode b] => Ok (ELet (PSingle n) ty_unknown v (Some b))
        | _ => Err Stuck
      end);
   ("code_let_tuple", fun args =>
      match args with
        | [ns; VCode v; VCode b] =>
-        do ns <- strs ns; Ok (VCode (ELet (PTuple (map let_tuple_pat ns)) ty_unknown v (Some b)))
+        do ns <- strs ns; Ok (ELet (PTuple (map let_tuple_pat ns)) ty_unknown v (Some b))
        | _ => Err Stuck
      end);
   ("code_letrec", fun args =>
      match args with
-       | [VStr n; VCode v; VCode b] => Ok (VCode (ELetRec n ty_unknown v (Some b)))
+       | [VStr n; VCode v; VCode b] => Ok (ELetRec n ty_unknown v (Some b))
        | _ => Err Stuck
      end);
   ("code_letrec_typed", fun args =>
      match args with
-       | [VStr n; VTy t; VCode v; VCode b] => Ok (VCode (ELetRec n t v (Some b)))
+       | [VStr n; VTy t; VCode v; VCode b] => Ok (ELetRec n t v (Some b))
        | _ => Err Stuck
      end);
   ("code_if", fun args =>
      match args with
-       | [VCode c; VCode t; VCode e] => Ok (VCode (EIf c t (Some e)))
+       | [VCode c; VCode t; VCode e] => Ok (EIf c t (Some e))
        | _ => Err Stuck
      end);
   ("code_tuple", fun args =>
      match args with
-       | [a] => do es <- codes a; Ok (VCode (ETuple es))
+       | [a] => do es <- codes a; Ok (ETuple es)
        | _ => Err Stuck
      end);
   ("code_proj", fun args =>
      match args with
-       | [VCode v; VInt i] => Ok (VCode (EProj v i))
+       | [VCode v; VInt i] => Ok (EProj v i)
        | _ => Err Stuck
      end);
   ("code_array", fun args =>
      match args with
-       | [a] => do es <- codes a; Ok (VCode (EArrayLiteral es))
+       | [a] => do es <- codes a; Ok (EArrayLiteral es)
        | _ => Err Stuck
      end);
   ("code_array_access", fun args =>
      match args with
-       | [VCode a; VCode i] => Ok (VCode (EArrayAccess a i))
+       | [VCode a; VCode i] => Ok (EArrayAccess a i)
        | _ => Err Stuck
      end);
   ("code_then", fun args =>
      match args with
-       | [VCode a; VCode b] => Ok (VCode (EThen a (Some b)))
+       | [VCode a; VCode b] => Ok (EThen a (Some b))
        | _ => Err Stuck
      end);
   ("code_assign", fun args =>
      match args with
-       | [VCode l; VCode r] => Ok (VCode (EAssign l r))
+       | [VCode l; VCode r] => Ok (EAssign l r)
        | _ => Err Stuck
      end);
   ("code_record", fun args =>
      match args with
        | [ns; vs] =>
-        do ns <- strs ns; do vs <- codes vs; do fs <- zip_fields ns vs; Ok (VCode (ERecordLiteral fs))
+        do ns <- strs ns; do vs <- codes vs; do fs <- zip_fields ns vs; Ok (ERecordLiteral fs)
        | _ => Err Stuck
      end);
   ("code_imcomplete_record", fun args =>
      match args with
        | [ns; vs] =>
-        do ns <- strs ns; do vs <- codes vs; do fs <- zip_fields ns vs; Ok (VCode (EImcompleteRecord fs))
+        do ns <- strs ns; do vs <- codes vs; do fs <- zip_fields ns vs; Ok (EImcompleteRecord fs)
        | _ => Err Stuck
      end);
   ("code_record_update", fun args =>
      match args with
        | [VCode r; ns; vs] =>
-        do ns <- strs ns; do vs <- codes vs; do fs <- zip_fields ns vs; Ok (VCode (ERecordUpdate r fs))
+        do ns <- strs ns; do vs <- codes vs; do fs <- zip_fields ns vs; Ok (ERecordUpdate r fs)
        | _ => Err Stuck
      end);
   ("code_field_access", fun args =>
      match args with
-       | [VCode v; VStr f] => Ok (VCode (EFieldAccess v f))
+       | [VCode v; VStr f] => Ok (EFieldAccess v f)
        | _ => Err Stuck
      end);
   ("code_feed", fun args =>
      match args with
-       | [VStr n; VCode b] => Ok (VCode (EFeed n b))
+       | [VStr n; VCode b] => Ok (EFeed n b)
        | _ => Err Stuck
      end);
   ("code_block", fun args =>
      match args with
-       | [VCode i] => Ok (VCode (EBlock (Some i)))
+       | [VCode i] => Ok (EBlock (Some i))
        | _ => Err Stuck
      end);
   ("code_paren", fun args =>
      match args with
-       | [VCode i] => Ok (VCode (EParen i))
+       | [VCode i] => Ok (EParen i)
        | _ => Err Stuck
      end);
   ("code_self", fun args =>
      match args with
-       | [] => Ok (VCode (ELit LSelf))
+       | [] => Ok (ELit LSelf)
        | _ => Err Stuck
      end);
   ("code_now", fun args =>
      match args with
-       | [] => Ok (VCode (ELit LNow))
+       | [] => Ok (ELit LNow)
        | _ => Err Stuck
      end);
   ("code_samplerate", fun args =>
      match args with
-       | [] => Ok (VCode (ELit LSampleRate))
+       | [] => Ok (ELit LSampleRate)
        | _ => Err Stuck
      end);
   ("code_lift_f", fun args =>
      match args with
-       | [VNum q] => Ok (VCode (ELit (LFloat q)))           (* = code_lit_f *)
+       | [VNum q] => Ok (ELit (LFloat q))           (* = code_lit_f *)
        | _ => Err Stuck
      end);
   ("code_lift_arrayf", fun args =>
      match args with
-       | [a] => do qs <- nums a; Ok (VCode (EArrayLiteral (map (fun q => ELit (LFloat q)) qs)))
+       | [a] => do qs <- nums a; Ok (EArrayLiteral (map (fun q => ELit (LFloat q)) qs))
        | _ => Err Stuck
      end);
   ("code_lift", fun args =>
      match args with
-       | [v] => do c <- lift_value v; Ok (VCode c)
+       | [v] => lift_value v
        | _ => Err Stuck
      end)
 ].
@@ -778,7 +778,7 @@ Fixpoint assoc {A : Type} (tbl : list (string * A)) (name : string) : option A :
   | (n, a) :: r => if String.eqb n name then Some a else assoc r name
   end.
 
-Definition combinator (fn : string) (args : list value) : res value :=
+Definition combinator (fn : string) (args : list value) : res expr :=
   match assoc combinator_table fn with Some f => f args | None => Err Stuck end.
 
 (* the name under which the VM finds an external function: the registration table *)
@@ -790,14 +790,14 @@ Fixpoint registered_fn (tbl : list (string * string * list akind)) (name : strin
 
 (* arithmetic / comparison intrinsics on f64 (compiler/intrinsics.rs; the VM's AddF, SubF, ... Gt, ...) *)
 Definition of_bool (b : bool) : num := if b then float_one else float_zero.
-Definition num2 (f : num -> num -> num) (args : list value) : res value :=
-  match args with [VNum a; VNum b] => Ok (VNum (f a b)) | _ => Err Stuck end.
-Definition intrinsic_table : list (string * (list value -> res value)) := [
+Definition num2 (f : num -> num -> num) (args : list value) : res num :=
+  match args with [VNum a; VNum b] => Ok (f a b) | _ => Err Stuck end.
+Definition intrinsic_table : list (string * (list value -> res num)) := [
   ("add", num2 (SFadd f64_prec f64_emax));
   ("sub", num2 (SFsub f64_prec f64_emax));
   ("mult", num2 (SFmul f64_prec f64_emax));
   ("div", num2 (SFdiv f64_prec f64_emax));
-  ("neg", fun args => match args with [VNum a] => Ok (VNum (SFopp a)) | _ => Err Stuck end);
+  ("neg", fun args => match args with [VNum a] => Ok (SFopp a) | _ => Err Stuck end);
   ("gt", num2 (fun a b => of_bool (SFltb b a)));
   ("ge", num2 (fun a b => of_bool (SFleb b a)));
   ("lt", num2 (fun a b => of_bool (SFltb a b)));
@@ -806,12 +806,16 @@ Definition intrinsic_table : list (string * (list value -> res value)) := [
   ("ne", num2 (fun a b => of_bool (negb (SFeqb a b))))
 ].
 
-(* an external function applied to its arguments *)
+(* an external function applied to its arguments: a combinator yields a code value, an intrinsic a number *)
 Definition prim (name : string) (args : list value) : res value :=
   if forallb is_data args then
     match registered_fn registered name with
-    | Some fn => combinator fn args
-    | None => match assoc intrinsic_table name with Some f => f args | None => Err Stuck end
+    | Some fn => do c <- combinator fn args; Ok (VCode c)
+    | None =>
+        match assoc intrinsic_table name with
+        | Some f => do q <- f args; Ok (VNum q)
+        | None => Err Stuck
+        end
     end
   else Err Stuck.
 
@@ -836,14 +840,20 @@ Definition optM {A B : Type} (f : A -> res B) (o : option A) : res (option B) :=
 
 (* rebuild (interpreter.rs `rebuild`, the reference reading of a quotation): the quoted expression itself
    with every `EEscape s` replaced by the code value that `evs s` (stage-0 evaluation of s) yields.
-   Forms translate_code leaves untranslated are errors. *)
+   Forms translate_code leaves untranslated are errors.  One deviation from the ideal reading is built in,
+   because the code does it (finding F19): a float literal is the value the stage-0 VM loads for it. *)
 Definition rebuild_with (evs : expr -> res value) : expr -> res expr :=
   fix rb (q : expr) {struct q} : res expr :=
     let rbf := mapM (fun f => match f with (nm, x) => do x' <- rb x; Ok (nm, x') end) in
     match q with
     | EEscape s => do v <- evs s; as_code v
     | EBracket x => do x' <- rb x; Ok (EBracket x')
-    | ELit l => match l with LPlaceHolder => Err Stuck | _ => Ok q end
+    | ELit l =>
+        match l with
+        | LPlaceHolder => Err Stuck
+        | LFloat x => Ok (ELit (LFloat (imm_round x)))   (* the literal passes through the stage-0 VM (F19) *)
+        | _ => Ok q
+        end
     | EVar _ | EQualifiedVar _ => Ok q
     | EBlock b => do b' <- optM rb b; Ok (EBlock b')
     | ETuple es => do es' <- mapM rb es; Ok (ETuple es')
@@ -1098,7 +1108,6 @@ with norm1 (e : expr) (k : nat) {struct e} : expr * nat :=
   match e with
   | EEscape inner => let '(i', k1) := norm0 inner k in (EEscape i', k1)
   | EBracket inner => let '(i', k1) := norm1 inner k in (EBlock (Some i'), k1)      (* nested quote -> block *)
-  | ELit (LFloat q) => (ELit (LFloat (imm_round q)), k)       (* the literal is loaded by the stage-0 VM *)
   | ELit _ => (e, k)
   | EVar _ => (e, k)
   | EApply f args =>
